@@ -114,8 +114,21 @@ func Run(r *core.Run, opt Options, body func(w *World)) (w *World) {
 			if opt.Cooperative {
 				w.FS.Sched = w.Sched
 			}
+			if dbg := os.Getenv("VERIF_DEBUG_STEPS"); dbg != "" {
+				f, _ := os.OpenFile(dbg, os.O_CREATE|os.O_APPEND|os.O_WRONLY, 0o644)
+				fmt.Fprintf(f, "=== run %d\n", r.No)
+				w.Sched.OnStep = func(t *core.Task, n int) {
+					fmt.Fprintf(f, "step %d t=%v tape=%d release %s@%s of %d parked %v\n", w.Sched.Steps, w.Since(), len(r.T.Rec), t.Name, t.Tag, n, w.Sched.Parked())
+				}
+			}
 			simhook.Set(w)
 			if opt.Cooperative {
+				r.T.Guard = func(tag string) {
+					if !w.Sched.OwnsTape() && r.Notes["tape_race"] == "" {
+						r.Notes["tape_race"] = fmt.Sprintf("decision %q drawn by goroutine %s which is not the released task", tag, w.Sched.Current())
+					}
+				}
+				defer func() { r.T.Guard = nil }()
 				w.Sched.Go("main", func() {
 					defer w.Sched.Stop()
 					body(w)
@@ -222,4 +235,21 @@ func (w *World) PanicsLogged() []string {
 		}
 	}
 	return out
+}
+
+// Sleep lets virtual time pass and then re-enters the schedule: a task woken
+// by a timer runs unscheduled until its next yield point, so harness code
+// must yield before it draws from the tape or touches shared state.
+func (w *World) Sleep(d time.Duration) {
+	if d > 0 {
+		time.Sleep(d)
+	}
+	w.Yield("wake")
+}
+
+// Recv waits for a value on a channel and re-enters the schedule.
+func Recv[T any](w *World, ch <-chan T) T {
+	v := <-ch
+	w.Yield("wake")
+	return v
 }
